@@ -99,6 +99,37 @@ def mon_C01_coq(lines, c):
     return None
 mon_C01_coq.applies = lambda c: mon_C01.applies(c) and c["n"] <= 255
 
+def mon_C05_coq(lines, c):
+    """The callbacks an update() / react() / query() must begin with, computed from the configuration by the extracted expected_cbs of
+    coq/Proofs/CycleProofs.v (update_cycle_order, react_cycle_order and query_shape prove that every model run delivers exactly these, each
+    recipient once, in this order, before anything else of the call), compared with what the implementation delivered."""
+    import subprocess
+    from . import common, cfg as cfgmod
+    active = {}; items = []
+    for call in calls(lines):
+        a = active.get(call.inst)
+        if call.op in ("update", "react", "query") and a is not None and a != 255: items.append((call, a))
+        if call.op == "destroy": active.pop(call.inst, None)
+        elif call.obs is not None: active[call.inst] = int(call.obs.f["active"])
+    if not items: return None
+    text = cfgmod.cfg_line(c) + "\n" + "".join("%s %d\n" % (call.op, a) for call, a in items)
+    try:
+        r = subprocess.run([common.model_runner(), "c05"], input=text, capture_output=True, text=True, timeout=60)
+    except Exception as e:
+        return 0, "the extracted expected_cbs could not be run: %r" % (e,)
+    exp = r.stdout.splitlines()
+    if r.returncode != 0 or len(exp) != len(items): return 0, "the extracted expected_cbs failed: %s" % r.stderr[:200]
+    for (call, a), e in zip(items, exp):
+        want = [tuple(x.split(" ")) for x in e.split(";") if x]
+        got = [(l.who, l.rec, l.meth) for _, l in call.ev if l.kind == "cb"][:len(want)]
+        if got != want:
+            k = next((i for i in range(min(len(got), len(want))) if got[i] != want[i]), min(len(got), len(want)))
+            idx = [i for i, l in call.ev if l.kind == "cb"][k] if k < len(got) else call.end
+            return idx, "%s() with state %d active must begin with the callbacks %s (expected_cbs of Proofs/CycleProofs.v); the implementation delivered %s" % (
+                call.op, a, " ".join("%s.%s.%s" % w for w in want), " ".join("%s.%s.%s" % g for g in got))
+    return None
+mon_C05_coq.applies = lambda c: True
+
 # ------------------------------------------------------------------------------------------------
 class Call:
     """The events of one API call on one instance."""
@@ -730,9 +761,9 @@ def mon_C17(lines, c):
     return None
 mon_C17.applies = lambda c: True
 
-MONITORS = {"C01": [mon_C01, mon_C01_coq], "C02": [mon_C02], "C03": [mon_C03], "C04": [mon_C04], "C05": [mon_C05], "C06": [mon_C06, mon_C06_guards],
+MONITORS = {"C01": [mon_C01, mon_C01_coq], "C02": [mon_C02], "C03": [mon_C03], "C04": [mon_C04], "C05": [mon_C05, mon_C05_coq], "C06": [mon_C06, mon_C06_guards],
             "C07": [mon_C07, mon_C07_payload], "C08": [mon_C08], "C09": [mon_C09], "C10": [mon_C10], "C11": [mon_C11, mon_C07_payload],
-            "C12": [mon_C12, mon_C12_lifecycle], "C15": [mon_C15], "C16": [mon_C16], "C17": [mon_C17]}
+            "C12": [mon_C12, mon_C12_lifecycle], "C15": [mon_C15, mon_C05_coq], "C16": [mon_C16], "C17": [mon_C17]}
 
 def run_monitors(pid, trace_text, c):
     lines = T.parse(trace_text)
